@@ -196,20 +196,11 @@ func tokName(t common.Address) string {
 func (rs *rigState) block(n int, viaPool bool) bool {
 	c, gen := rs.c, rs.gen
 	items := gen.Batch(n)
-	if viaPool {
-		// the mempool's state check refuses block-only items: regenerate without them
-		keep := true
-		for _, it := range items {
-			if it.BlockOnly {
-				keep = false
-			}
-		}
-		if !keep {
-			viaPool = false
+	for _, it := range items {
+		if it.BlockOnly {
+			viaPool = false // the mempool's state check refuses these by design
 		}
 	}
-	bs := txgen.BlockSpec{Time: rs.now}
-	rs.now += uint64(1 + gen.T.Int(20))
 	path := "list"
 	if viaPool {
 		path = "pool"
@@ -220,20 +211,23 @@ func (rs *rigState) block(n int, viaPool bool) bool {
 				return false
 			}
 			if err := rs.T.Submit(tx); err != nil {
-				// a valid-by-construction transaction refused by the mempool is not a
-				// conservation matter; it is noted and the block goes the explicit way
-				c.Probe("pool-refused/" + string(it.Kind))
-				rs.smp.Weights = fmt.Sprintf("pool refused %s: %v", it.Note, err)
-				viaPool = false
+				c.HarnessTrouble("mempool refused a valid generated transaction (%s): %v", it.Note, err)
+				return false
 			}
 		}
 	}
-	if !viaPool {
-		path = "list"
+	return rs.commitItems(items, path)
+}
+
+// commitItems commits one block holding exactly items (path "pool": they are
+// already in the trie replica's mempool; otherwise an explicit list), on both
+// replicas, advances the ledger and evaluates the oracle.
+func (rs *rigState) commitItems(items []*txgen.Item, path string) bool {
+	c, gen := rs.c, rs.gen
+	bs := txgen.BlockSpec{Time: rs.now}
+	rs.now += uint64(1 + gen.T.Int(20))
+	if path != "pool" {
 		bs.Explicit, bs.Txs = true, txgen.Txs(items)
-		if len(rs.smp.Blocks) > 0 || true {
-			// drop whatever an abandoned pool attempt left behind: a fresh explicit list wins
-		}
 	}
 	block, parts, err := rs.T.Propose(bs)
 	if err != nil {
@@ -268,7 +262,7 @@ func (rs *rigState) block(n int, viaPool bool) bool {
 			c.Violate("replica", "reject/"+r.Name+"-replica-rejects-honest-block", "replica %s rejected the block built on the trie replica at height %d (%s)", r.Name, block.Height, describe(items))
 			return false
 		}
-		if _, err := r.Commit(blk, blk.MakePartSet(parts.Header().Total*0+partSize(r)), seen, false); err != nil {
+		if _, err := r.Commit(blk, blk.MakePartSet(partSize(r)), seen, false); err != nil {
 			c.HarnessTrouble("commit on %s: %v", r.Name, err)
 			return false
 		}
@@ -395,6 +389,13 @@ func (rs *rigState) oracle(block *types.Block, receipts types.Receipts) bool {
 			c.Probe("lost-after-selfdestruct")
 			want.Sub(want, lost)
 		}
+		if forged := nz(L.Forged[t]); forged.Sign() > 0 {
+			// hidden value a deliberately unbalanced transaction claimed without owning it
+			if c.Violate("inflation", "inflation/short-ring-pseudo-out-unbound", "height %d: a ring-size-1 spend claiming %v more %s than its input holds was committed: supply grows by that amount", h, forged, tokName(t)) {
+				return false
+			}
+			want.Add(want, forged)
+		}
 		c.Evals(1)
 		if have.Cmp(want) != 0 {
 			d := new(big.Int).Sub(have, want)
@@ -438,15 +439,11 @@ func (rs *rigState) oracle(block *types.Block, receipts types.Receipts) bool {
 				}
 			}
 		}
-		if a != types.MultiSignNonceAddr || true {
-			if wantN := L.Nonce(a); L.Contracts[a] == nil || true {
-				gotT, gotK := tst.GetNonce(a), kst.GetNonce(a)
-				if gotT != wantN || gotK != wantN {
-					if isTracked(rs, a) {
-						c.Violate("ledger", "nonce/"+role(rs, a), "height %d: nonce of %s %x is %d (trie) / %d (kv), ledger says %d", h, role(rs, a), a, gotT, gotK, wantN)
-						return false
-					}
-				}
+		if isTracked(rs, a) {
+			wantN := L.Nonce(a)
+			if gotT, gotK := tst.GetNonce(a), kst.GetNonce(a); gotT != wantN || gotK != wantN {
+				c.Violate("ledger", "nonce/"+role(rs, a), "height %d: nonce of %s %x is %d (trie) / %d (kv), ledger says %d", h, role(rs, a), a, gotT, gotK, wantN)
+				return false
 			}
 		}
 	}
@@ -510,9 +507,5 @@ func role(rs *rigState, a common.Address) string {
 	return "other"
 }
 
-// kindsOf is the sorted set of transaction kinds of a block sample (stable key material).
-func kindsOf(b blockSample) string {
-	return fmt.Sprintf("h%d", 0)[:0] + "block"
-}
-
-func (rs *rigState) tamperRound() {}
+// kindsOf is stable key material for a violation found after a block.
+func kindsOf(b blockSample) string { return "block" }
